@@ -90,6 +90,26 @@ def run(tier, seed, replay=None):
         if c4 and r4 > 10 * thr:
             V.fail("gmres_restart reports convergence with a residual above the threshold", {"size": m, "threshold": thr, "restarted": r4})
     dist["local gmres contract"] = n_loc
+    # BiCGSTAB: the same kind of contract; its stopping tests must be relative (right-hand sides of any magnitude) and a
+    # near-breakdown restart must restart the search direction too
+    n_bi = 0
+    for t in range(16 if tier == "quick" else 160):
+        m = rng.choice([20, 40, 80])
+        P_ = torch.tensor([[rng.gauss(0, 1) for _ in range(m)] for _ in range(m)], dtype=torch.float64) / math.sqrt(m)
+        L = P_.T @ P_ + 2.0 * torch.eye(m, dtype=torch.float64)
+        sc = rng.choice([1.0, 1e-6, 1e-9, 1e5])
+        bvec = sc * torch.tensor([[rng.gauss(0, 1)] for _ in range(m)], dtype=torch.float64)
+        thr = rng.choice([1e-4, 1e-8, 1e-10])
+        try:
+            torch.manual_seed(t)
+            xb, flag, nit, relres = IS.BiCGSTAB_reset(_Op(L), bvec, torch.zeros_like(bvec), thr, 200)
+        except Exception as ex:
+            V.fail("BiCGSTAB_reset raises %s" % type(ex).__name__, {"size": m, "exc": str(ex)[:200]}); continue
+        rb = float((L @ xb.reshape(-1, 1) - bvec).norm() / bvec.norm())
+        n_bi += 1
+        if rb > 10 * thr:
+            V.fail("BiCGSTAB_reset: well-conditioned SPD system, 200 iterations allowed, residual above the threshold", {"size": m, "threshold": thr, "rhs_scale": sc, "rel_residual": rb, "iterations": int(nit)})
+    dist["local bicgstab contract"] = n_bi
     # ---- the frame identity (C12_entry_frame / _setc / _setc_add) on the implementation, exactly (integer cores): the dense value as a
     #      function of one core is  L_k (x) G_k (x) R_k  with the interfaces of the OTHER cores, and it is additive in that core
     n_frame = 0
@@ -124,6 +144,8 @@ def run(tier, seed, replay=None):
         prec = rng.choice([None, None, "c", "r"])
         max_full = rng.choice([0, 500])
         local = rng.choice(["gmres", "bicgstab"]) if max_full == 0 else None
+        if i % 5 == 4:                        # every fifth case: BiCGSTAB, no preconditioner, tight tolerance
+            max_full, local, prec, eps = 0, "bicgstab", None, rng.choice([1e-10, 1e-8])
         gk = rng.choice(["none", "none", "none", "random", "random", "zeros", "0*b", "b", "random*1e6", "random*1e-9", "zero-core"])
         guess = None
         if gk != "none":
